@@ -1043,11 +1043,20 @@ func (P *Prog) checkGetByFieldAgreement(r *Result, rule string) {
 		getName := "(" + recvT + ").Get"
 		var rets []string
 		empty, keyed, tagOK, okRet := 0, 0, true, true
+		emptyKeyed := 0
 		for _, p := range sh.paths {
 			rets = append(rets, strings.Join(p.conds, " ∧ ")+" ⇒ "+p.ret)
 			if p.ret == "(nil, fallback)" && len(p.conds) == 0 {
 				empty++
 				continue
+			}
+			// a provider without data still names the field like the others: (nil, <the resolved key>)
+			if strings.HasPrefix(p.ret, "(nil, zog/internals.GetKeyFromField(field, fallback, ") && len(p.conds) == 0 {
+				tag := strings.TrimSuffix(strings.TrimPrefix(p.ret, "(nil, zog/internals.GetKeyFromField(field, fallback, "), "))")
+				if ownFieldPath.MatchString(tag) || strings.HasPrefix(tag, "&@") {
+					emptyKeyed++
+					continue
+				}
 			}
 			keyed++
 			const kpre = "zog/internals.GetKeyFromField(field, fallback, "
@@ -1079,8 +1088,12 @@ func (P *Prog) checkGetByFieldAgreement(r *Result, rule string) {
 			}
 		}
 		switch {
+		case keyed == 0 && empty == 0 && emptyKeyed > 0:
+			r.ok(rule, c, P.pos(fn.Pos()), "provider without data: (nil, GetKeyFromField(field, fallback, own tag)) - the field is named as every other provider names it")
 		case keyed == 0 && empty > 0:
-			r.ok(rule, c, P.pos(fn.Pos()), "empty provider: (nil, fallback)")
+			// (accepted until a missing field of an empty record was seen to be reported under another key than the
+			// same field of a non-empty one: `{}` -> "name", `{"other":1}` -> "name_z")
+			r.bad(rule, c, P.pos(fn.Pos()), "a provider without data returns the schema key as the key of the field, whatever the field's tags say: the issues of an empty record are filed under other keys than the issues of a non-empty one", rets...)
 		case keyed == 0:
 			r.bad(rule, c, P.pos(fn.Pos()), "GetByField neither resolves the key with GetKeyFromField nor returns (nil, fallback)", rets...)
 		case !tagOK:
@@ -1559,6 +1572,44 @@ func (P *Prog) checkTagReachesNested(r *Result, rule string) {
 				r.ok(rule, c, P.ipos(in), "map provider created with a tag")
 			}
 		})
+	}
+	// (iii) the provider that stands in for an empty record (`{}` decoded by a front end is handed over as a nil
+	// provider) knows the front end's tag: an EmptyDataProvider built by the struct pipeline with no tag names the
+	// fields of `{}` by their zog tag or schema key while `{"other":1}` from the same front end names them by its
+	// source tag
+	provT := namedOf(func() types.Type {
+		for _, pv := range R.Providers {
+			if pv.Obj().Name() == "EmptyDataProvider" {
+				return pv
+			}
+		}
+		return nil
+	}())
+	if provT != nil {
+		for _, u := range P.allUnits(R.Process["StructSchema"]) {
+			eachInstr(u.fn, func(_ *ssa.BasicBlock, _ int, in ssa.Instruction) {
+				al, ok := in.(*ssa.Alloc)
+				if !ok || !al.Heap || !sameNamed(namedOf(al.Type().(*types.Pointer).Elem()), provT) {
+					return
+				}
+				c := "StructSchema.process#empty-record-provider-tag"
+				tagSet := false
+				if refs := al.Referrers(); refs != nil {
+					for _, rf := range *refs {
+						if fa, ok := rf.(*ssa.FieldAddr); ok {
+							if _, f := fieldVar(fa); f != nil && f.Name() == "tag" && len(storesTo(fa)) > 0 {
+								tagSet = true
+							}
+						}
+					}
+				}
+				if tagSet {
+					r.ok(rule, c, P.ipos(in), "the stand-in for an empty record carries the front end's tag")
+				} else {
+					r.bad(rule, c, P.ipos(in), "the provider that stands in for an empty record is built without the tag of the front end the record came from: the fields of `{}` are named by zog tag / schema key, the fields of a non-empty record from the same front end by its source tag")
+				}
+			})
+		}
 	}
 	r.floor(rule, 2)
 }
